@@ -160,14 +160,17 @@ private:
         double cb = get_color( src, cb_t() );
         double cr = get_color( src, cr_t() );
 
-        get_color(dst, red_t()) = static_cast<dst_channel_t>(
-            detail::clamp(1.6438 * (y - 16.0) + 1.5960 * (cr -128.0), 0.0, 255.0));
+        // The inverse of the matrix of the rgb -> ycbcr converter below (the same as the 8 bit path above, 298/256 etc.):
+        // the luma gain is 255/219 = 1.1644, green loses the red difference, blue gains the blue difference.
+        // The result is an 8 bit level, which still has to be scaled to the range of the destination channel.
+        get_color(dst, red_t()) = channel_convert<dst_channel_t>(static_cast<std::uint8_t>(
+            detail::clamp(1.1644 * (y - 16.0) + 1.5960 * (cr -128.0) + 0.5, 0.0, 255.0)));
 
-        get_color(dst, green_t()) = static_cast<dst_channel_t>(
-            detail::clamp(1.6438 * (y - 16.0) - 0.3917 * (cb - 128.0) + 0.8129 * (cr -128.0), 0.0, 255.0));
+        get_color(dst, green_t()) = channel_convert<dst_channel_t>(static_cast<std::uint8_t>(
+            detail::clamp(1.1644 * (y - 16.0) - 0.3917 * (cb - 128.0) - 0.8129 * (cr -128.0) + 0.5, 0.0, 255.0)));
 
-        get_color(dst, blue_t()) = static_cast<dst_channel_t>(
-            detail::clamp(1.6438 * ( y - 16.0 ) - 2.0172 * ( cb -128.0 ), 0.0, 255.0));
+        get_color(dst, blue_t()) = channel_convert<dst_channel_t>(static_cast<std::uint8_t>(
+            detail::clamp(1.1644 * ( y - 16.0 ) + 2.0172 * ( cb -128.0 ) + 0.5, 0.0, 255.0)));
     }
 };
 
@@ -187,12 +190,13 @@ struct default_color_converter_impl<rgb_t, ycbcr_601__t>
 	{
         using namespace ycbcr_601_color_space;
 
-        using src_channel_t = typename channel_type<SRCP>::type;
         using dst_channel_t = typename channel_type<DSTP>::type;
 
-		src_channel_t red   = channel_convert<src_channel_t>( get_color(src,   red_t()));
-		src_channel_t green = channel_convert<src_channel_t>( get_color(src, green_t()));
-		src_channel_t blue  = channel_convert<src_channel_t>( get_color(src,  blue_t()));
+		// the formulas are written for 8 bit levels: bring the channels of any other depth to that range first
+		// (converting to the source's own channel type is the identity: rgb16 overflowed the result, rgb32f gave black)
+		std::uint8_t red   = channel_convert<std::uint8_t>( get_color(src,   red_t()));
+		std::uint8_t green = channel_convert<std::uint8_t>( get_color(src, green_t()));
+		std::uint8_t blue  = channel_convert<std::uint8_t>( get_color(src,  blue_t()));
 
 		double  y =  16.0 + 0.2567 * red  + 0.5041 * green + 0.0979 * blue;
 		double cb = 128.0 - 0.1482 * red  - 0.2909 * green + 0.4392 * blue;
@@ -215,12 +219,13 @@ struct default_color_converter_impl<rgb_t, ycbcr_709__t>
 	{
         using namespace ycbcr_709_color_space;
 
-        using src_channel_t = typename channel_type<SRCP>::type;
         using dst_channel_t = typename channel_type<DSTP>::type;
 
-		src_channel_t red   = channel_convert<src_channel_t>( get_color(src,   red_t()));
-		src_channel_t green = channel_convert<src_channel_t>( get_color(src, green_t()));
-		src_channel_t blue  = channel_convert<src_channel_t>( get_color(src,  blue_t()));
+		// the formulas are written for 8 bit levels: bring the channels of any other depth to that range first
+		// (converting to the source's own channel type is the identity: rgb16 overflowed the result, rgb32f gave black)
+		std::uint8_t red   = channel_convert<std::uint8_t>( get_color(src,   red_t()));
+		std::uint8_t green = channel_convert<std::uint8_t>( get_color(src, green_t()));
+		std::uint8_t blue  = channel_convert<std::uint8_t>( get_color(src,  blue_t()));
 
 		double  y =            0.299 * red  +    0.587 * green +    0.114 * blue;
 		double cb = 128.0 - 0.168736 * red  - 0.331264 * green +      0.5 * blue;
@@ -243,20 +248,23 @@ struct default_color_converter_impl<ycbcr_709__t, rgb_t>
 	{
         using namespace ycbcr_709_color_space;
 
-        using src_channel_t = typename channel_type<SRCP>::type;
         using dst_channel_t = typename channel_type<DSTP>::type;
 
-		src_channel_t y           = channel_convert<src_channel_t>( get_color(src,  y_t())       );
-		src_channel_t cb_clipped  = channel_convert<src_channel_t>( get_color(src, cb_t()) - 128 );
-		src_channel_t cr_clipped  = channel_convert<src_channel_t>( get_color(src, cr_t()) - 128 );
+		// the color differences are signed: channel_convert<src_channel_t>( cb - 128 ) mapped the whole range of
+		// int onto the channel, i.e. to a constant, and every color came back wrong
+		double y           = get_color(src,  y_t());
+		double cb_clipped  = get_color(src, cb_t()) - 128.0;
+		double cr_clipped  = get_color(src, cr_t()) - 128.0;
 
-		double   red =   y                        +   1.042 * cr_clipped;
+		// the inverse of the matrix of the rgb -> ycbcr converter above (1.402, not 1.042), rounded and
+		// clamped to the 8 bit levels before it is narrowed
+		double   red =   y                        +   1.402 * cr_clipped;
 		double green =   y - 0.34414 * cb_clipped - 0.71414 * cr_clipped;
 		double  blue =   y +   1.772 * cb_clipped;
 
-		get_color( dst,   red_t() ) = (dst_channel_t)   red;
-		get_color( dst, green_t() ) = (dst_channel_t) green;
-		get_color( dst,  blue_t() ) = (dst_channel_t)  blue;
+		get_color( dst,   red_t() ) = channel_convert<dst_channel_t>(static_cast<std::uint8_t>(detail::clamp(  red + 0.5, 0.0, 255.0)));
+		get_color( dst, green_t() ) = channel_convert<dst_channel_t>(static_cast<std::uint8_t>(detail::clamp(green + 0.5, 0.0, 255.0)));
+		get_color( dst,  blue_t() ) = channel_convert<dst_channel_t>(static_cast<std::uint8_t>(detail::clamp( blue + 0.5, 0.0, 255.0)));
 	}
 };
 
